@@ -98,6 +98,15 @@ def corpus():
     out.append(_case('type Query { a: Int @deprecated(reason: null) b: Int @deprecated c: Int @deprecated(reason: "") '
                      'd: Int @deprecated(reason: "x") @deprecated(reason: "y") }', "valid"))
     out.append(_case("schema { query: Query }\ntype Query { a: Int }\ntype Mutation { b: Int }", "valid"))
+    # seeded C11-f: default root names are matched exactly (case-sensitive), whatever the definition order
+    out.append(_case("type mutation { b: Int }\ntype QUERY { c: Int }\ntype Query { a: Int }\ntype SubScription { d: Int }\n"
+                     "type query { e: Int }", "root-case-variants"))
+    out.append(_case("type Query { a: Int }\ntype Mutation { m: Int }\ntype MUTATION { x: Int }\ntype subscription { s: Int }\n"
+                     "interface query { q: Int }", "root-case-variants"))
+    out.append(_case("schema { query: Query }\ntype Query { a: Int }\ntype mutation { b: Int }\ntype Subscription { c: Int }",
+                     "root-case-variants"))
+    out.append(_case("type query { a: Int }", "no-query", expect=3))
+    out.append(_case("type QUERY { a: Int }\ntype Mutation { b: Int }", "no-query", expect=3))
     out.append(_case("scalar String\ntype Query { a: String }", "valid"))
     out.append(_case("type Query { c(x: Color = RED, y: [Color!] = [GREEN, BLUE], p: Paging = {sortBy: \"a\"}): Date }\n"
                      "enum Color { WHATEVER }", "valid", additional=[ADD_ENUM, ADD_SCALAR, ADD_INPUT]))
